@@ -254,7 +254,7 @@ def poll_crash(prog: dict, times: int) -> dict:
 
 
 def operator(prog: dict, seed: int, pause_at: int = -1, unpause_after: int = 3, restart: str = "", shuffle: bool = True,
-             hold: str = "", max_steps: int = 400) -> dict:
+             hold: str = "", max_steps: int = 400, restart_at: int = -1, signal_after: bool = False) -> dict:
     """Operator actions on a (seeded, possibly shuffled) run: pause before delivery step `pause_at`, unpause once the run
     has gone quiet or `unpause_after` steps later; after the workflow finished, restart stage `restart` and drain again."""
     rng = random.Random(seed)
@@ -273,6 +273,10 @@ def operator(prog: dict, seed: int, pause_at: int = -1, unpause_after: int = 3, 
                 rest = [r for r in vis if not (r["typ"] == "ResumeStage" and r["key"][1] == hold)]
                 vis = rest or vis
             locked = [r for r in rows if r["locked"]]
+            if step == restart_at and restart and not restarted and restart in run.proj.state()["st"]:
+                run.restart_stage(restart)      # an operator restart at ANY moment (running, suspended, paused, not started)
+                restarted = True
+                continue
             if step == pause_at and run.proj.state()["wf"]["status"] == "RUNNING":
                 run.pause()
                 paused_at = step
@@ -281,8 +285,13 @@ def operator(prog: dict, seed: int, pause_at: int = -1, unpause_after: int = 3, 
                 run.unpause()
                 unpaused = True
                 continue
+            if not rows and signal_after and not getattr(run, "_sig_sent", False):
+                run._sig_sent = True            # the run went quiet on a suspended stage: release it
+                for tgt in signal_targets(prog):
+                    run.send_signal(tgt, True)
+                continue
             if not rows:
-                if restart and not restarted and run.proj.state()["st"].get(restart, {}).get("status") in (
+                if restart and not restarted and restart_at < 0 and run.proj.state()["st"].get(restart, {}).get("status") in (
                         "SUCCEEDED", "TERMINAL", "CANCELED", "SKIPPED", "FAILED_CONTINUE", "STOPPED"):
                     run.restart_stage(restart)
                     restarted = True
@@ -304,7 +313,8 @@ def operator(prog: dict, seed: int, pause_at: int = -1, unpause_after: int = 3, 
                 continue
             break
         return run.as_trace({"kind": "operator", "seed": seed, "pause_at": pause_at, "unpause_after": unpause_after,
-                             "restart": restart, "shuffle": shuffle, "hold": hold})
+                             "restart": restart, "shuffle": shuffle, "hold": hold, "restart_at": restart_at,
+                             "signal_after": signal_after})
     finally:
         run.close()
 
